@@ -1565,7 +1565,7 @@ class OptimisationProblem:
         def local_surrogate(theta, model_scikit):
             assert theta.ndim == 1
             theta = np.expand_dims(theta, 0)
-            return float(model_scikit.predict(theta))
+            return model_scikit.predict(theta).item()
 
         def create_local_surrogate(model):
             return partial(local_surrogate, model_scikit=model)
